@@ -193,6 +193,11 @@ impl NetworkBottleneck {
 
     pub fn pop_aggregate_delay(&mut self) {
         if let Some(aggregate) = self.aggregate_delay_queue.pop() {
+            #[cfg(feature = "verif")]
+            crate::verif::rec(|| crate::verif::Rec::AggregatePopped {
+                client: aggregate.client,
+                delay: aggregate.delay,
+            });
             match aggregate.client {
                 true => {
                     debug!("\tpopping aggregate delay at client {:?}", aggregate.delay);
